@@ -34,6 +34,8 @@ DEFAULT = dict(
     sl_dist=(3, 7), tp_dist=(2, 6), max_exit_rows=2, exits_in='go',          # 'go' | 'on_open' | 'mixed' | 'none'
     p_cancel=0.4, p_edit=0.15, p_liq=0.03, p_edit_reduced=0.4, p_edit_increased=0.3, p_edit_entry=0.0,
     p_wrong_side=0.0, p_oversize=0.0, oversize_sl=False, edit_offsets=None,
+    p_withdraw=0.05,          # withdraw one side of the exits by declaring []
+    p_move_entry=0.0,         # re-declare the entry rows of an OPEN position with one price moved by 1-2 ticks (scale-in rows)
     p_inplace=0.12,           # in-place edits of an already formatted declaration (ndarray item / column assignment)
     resize_always=False,      # exits re-declared for the current position size after every increase / reduction
 )
@@ -139,6 +141,28 @@ def make_strategy(policy, log):
                 arr[:, 1] += d
             return True
 
+        def _withdraw(self, r):
+            """take one side of the exits back by declaring an empty list"""
+            sides_ = [n for n in ('stop_loss', 'take_profit') if len(rows_of(getattr(self, n))) > 0]
+            if not sides_ or self.position.qty == 0:
+                return False
+            setattr(self, r.choice(sides_), [])
+            return True
+
+        def _move_entry(self, r):
+            """re-declare the (scale-in) entry rows of the open position with one price moved by a tick or two"""
+            name = 'buy' if self.position.qty > 0 else 'sell'
+            rows = rows_of(getattr(self, name))
+            if not rows or self.position.qty == 0:
+                return False
+            k = r.randrange(len(rows))
+            p_new = rows[k][1] + r.choice([-2, -1, 1, 2]) * tick
+            if p_new <= tick:
+                return False
+            rows[k] = (rows[k][0], p_new)
+            setattr(self, name, self._style(r, rows) if len(rows) > 1 else [rows[0]])
+            return True
+
         def _set_exits(self, r, sign, total, which='both'):
             if which in ('sl', 'both'):
                 sl = self._ladder(r, P['sl_dist'], -sign, total, self.price)
@@ -194,6 +218,8 @@ def make_strategy(policy, log):
                 self._set_exits(r, 1 if self.position.qty > 0 else -1, abs(self.position.qty), 'both')
             elif r.random() < P['p_inplace'] and self._inplace(r):
                 pass
+            elif r.random() < P['p_withdraw'] and self._withdraw(r):
+                pass
             elif r.random() < P['p_edit_reduced'] and self.position.qty != 0:
                 sign = 1 if self.position.qty > 0 else -1
                 if r.random() < 0.5:        # stop moved to (about) break-even for what is left
@@ -213,6 +239,10 @@ def make_strategy(policy, log):
             if x < P['p_liq']:
                 self.liquidate()
             elif x > 1 - P['p_inplace'] and self._inplace(r):
+                pass
+            elif x > 1 - P['p_inplace'] - P['p_withdraw'] and self._withdraw(r):
+                pass
+            elif x > 1 - P['p_inplace'] - P['p_withdraw'] - P['p_move_entry'] and self._move_entry(r):
                 pass
             elif x < P['p_liq'] + P['p_edit'] and self.position.qty != 0:
                 sign = 1 if self.position.qty > 0 else -1
@@ -288,7 +318,8 @@ class StratRec:
                             and self.orders[i].submitted_via is None],
                       act=[self.order_rec(i) for i in self.active(strat.symbol)],
                       sl=self.rows(strat.stop_loss), tp=self.rows(strat.take_profit),
-                      hl=strat.stop_loss is not None, ht=strat.take_profit is not None)
+                      hl=strat.stop_loss is not None, ht=strat.take_profit is not None,
+                      buy=self.rows(strat.buy), sell=self.rows(strat.sell))
         elif kind == 'decl':
             self.emit('decl', s=s, h=name, q=q, buy=self.rows(strat.buy), sell=self.rows(strat.sell),
                       sl=self.rows(strat.stop_loss), tp=self.rows(strat.take_profit),
@@ -299,7 +330,8 @@ class StratRec:
             self.emit('after', s=s, i=strat.index, q=q, sce=bool(strat.should_cancel_entry()),
                       act=[self.order_rec(i) for i in self.active(strat.symbol)],
                       sl=self.rows(strat.stop_loss), tp=self.rows(strat.take_profit),
-                      hl=strat.stop_loss is not None, ht=strat.take_profit is not None)
+                      hl=strat.stop_loss is not None, ht=strat.take_profit is not None,
+                      buy=self.rows(strat.buy), sell=self.rows(strat.sell))
 
     def install(self):
         from jesse.models import Order
@@ -581,7 +613,7 @@ def gen_items(seed, count, kinds, n_minutes=240):
             it.update(tf='5m', n=(n_minutes // 5) * 5 * 2)
         elif kind == 'spot':       # spot account: exits may only be declared once the position is open; no shorts, no fee
             pol.update(base=100, tick=1.0, qtys=(1, 2), max_entry_rows=2, max_exit_rows=2, exits_in='on_open', allow_short=False,
-                       p_edit=0.25, resize_always=True, p_edit_entry=0.0, p_liq=0.0, p_inplace=0.0)
+                       p_edit=0.25, resize_always=True, p_edit_entry=0.0, p_liq=0.0, p_inplace=0.0, p_withdraw=0.0)
             it.update(spot=True, fee=[0, 1])
         elif kind == 'iso':        # isolated margin, leverage 20: positions without a stop run into the liquidation order
             pol.update(base=100, tick=1.0, qtys=(1, 2), max_entry_rows=1, entry_offsets=(0, 0, -1, 1), max_exit_rows=2,
@@ -598,8 +630,18 @@ def gen_items(seed, count, kinds, n_minutes=240):
                       fast=rng.choice([False, True]))
         elif kind == 'spotfee':    # spot account with a fee: the fee of a buy is taken from the base asset (position = qty * (1 - fee))
             pol.update(base=100, tick=1.0, qtys=(1, 2), max_entry_rows=2, max_exit_rows=2, exits_in='on_open', allow_short=False,
-                       p_edit=0.25, resize_always=True, p_edit_entry=0.0, p_liq=0.0, p_inplace=0.0)    # (a market exit next to resting limit sells is rejected in spot)
+                       p_edit=0.25, resize_always=True, p_edit_entry=0.0, p_liq=0.0, p_inplace=0.0, p_withdraw=0.0)    # (a market exit next to resting limit sells is rejected in spot)
             it.update(spot=True, fee=[1, 1024], qdiv=1024)
+        elif kind in ('big', 'tiny'):   # 100000-priced / 1.2e-6-priced instrument: scale-in rows of an open position moved by 1-2 ticks
+            if kind == 'big':
+                pol.update(base=200000, tick=0.5, entry_offsets=(0, -40, -60, -80, 50, 70))
+                it.update(balance=10000000, fee=[0, 1], walk=dict(step=25, wick=15, room=40000))
+            else:
+                pol.update(base=600, tick=2e-9, entry_offsets=(0, -3, -5, -8, 4, 6))
+                it.update(balance=1, fee=[0, 1], walk=dict(step=2, wick=2, room=400))
+            pol.update(qtys=(1, 2), max_entry_rows=3, max_exit_rows=2, exits_in=rng.choice(['go', 'on_open']), p_move_entry=0.3,
+                       p_edit=0.1, p_liq=0.02, p_cancel=0.2, entry_every=rng.choice([9, 11]),
+                       sl_dist=(120, 200) if kind == 'big' else (12, 20), tp_dist=(100, 180) if kind == 'big' else (10, 18))
         elif kind == 'spotover':   # fee-free spot, full-size stop next to a partial take-profit, never re-sized
             pol.update(base=100, tick=1.0, qtys=(1, 2), max_entry_rows=1, max_exit_rows=2, exits_in='on_open', allow_short=False,
                        oversize_sl=True, p_edit=0.0, p_edit_reduced=0.0, p_edit_increased=0.0, p_liq=0.0, p_inplace=0.0, p_edit_entry=0.0)
